@@ -2,6 +2,7 @@ package gen
 
 import (
 	"strings"
+	"unicode/utf8"
 
 	"verif/plan"
 )
@@ -258,6 +259,29 @@ func genC06Strlen(r *plan.Rng) *plan.Plan {
 		{"g33 := format(\"%v|%v\", stz, stz)", "g33b := format(\"[%s]\", stz)", "g33c := string(stz) + format(\"%d\", n)", "g33d := format(\"%v\", [stz, n])"},
 		{"g14 := string(n * 1000000) + string(fl) + string(true) + string(undefined)", "g14b := format(\"%t|%c|%U\", true, chr, chr)"},
 	}
+	// random format statements: flag set x width x precision x verb x operand (sv/bv are
+	// inputs whose length is drawn per plan, see below)
+	fr := r.Fork(0xf0)
+	var rf []string
+	for k, nf := 0, fr.Range(1, 3); k < nf; k++ {
+		spec := "%"
+		for _, fl := range "+-# 0" {
+			if fr.Chance(1, 4) {
+				spec += string(fl)
+			}
+		}
+		if fr.Chance(1, 3) {
+			spec += itoa(fr.Range(0, 40))
+		}
+		if fr.Chance(1, 4) {
+			spec += "." + itoa(fr.Range(0, 12))
+		}
+		spec += string("vsdxXqcUeftbo"[fr.Intn(13)])
+		pre, post := []string{"", "", "ab", "|"}[fr.Intn(4)], []string{"", "", "|", "yz"}[fr.Intn(4)]
+		opd := []string{"sv", "bv", "sv", "bv", "str", "byt", "n", "fl", "chr", "arr", "true", "sv + sv", "[sv, bv]", "error(sv)"}[fr.Intn(14)]
+		rf = append(rf, "g35"+string(rune('a'+k))+" := format(\""+pre+spec+post+"\", "+opd+")")
+	}
+	growers = append(growers, rf)
 	n := r.Range(1, 3)
 	var body, names []string
 	used := map[int]bool{}
@@ -268,13 +292,66 @@ func genC06Strlen(r *plan.Rng) *plan.Plan {
 		}
 		used[i] = true
 		names = append(names, "g"+itoa(i+1))
-		body = append(body, growers[i]...)
+		body = append(body, c06Thin(fr, growers[i])...)
 	}
 	R := r.Range(0, 9)
 	src := strings.ReplaceAll(lines(append(body, "done := 1")...), "R", itoa(R))
 	note(p, "kinds", strings.Join(names, "+")+"/R"+itoa(R))
-	p.Scripts = []plan.Script{{Src: src, Inputs: c06Inputs()}}
+	// two more operands whose lengths differ from plan to plan, and three more maxima: a
+	// window such as "2n fits, 3n-1 does not" is met only when operand length and maximum
+	// line up, which the fixed inputs and the fixed grid do for a few n only
+	svLen, bvLen := fr.Range(0, 40), fr.Range(0, 40)
+	sv := strings.Repeat("héllo wörld, ", 4)[:svLen]
+	for !utf8.ValidString(sv) {
+		svLen++
+		sv = strings.Repeat("héllo wörld, ", 4)[:svLen]
+	}
+	bv := make([]byte, bvLen)
+	for i := range bv {
+		bv[i] = byte(fr.Intn(256))
+	}
+	ins := append(c06Inputs(), plan.Input{Name: "sv", Val: plan.Str(sv)}, plan.Input{Name: "bv", Val: plan.Bytes(bv)})
+	param(p, "gridS1", int64(fr.Range(1, 40)))
+	param(p, "gridS2", int64(fr.Range(41, 300)))
+	param(p, "gridY1", int64(fr.Range(1, 80)))
+	p.Scripts = []plan.Script{{Src: src, Inputs: ins}}
 	return p
+}
+
+// c06Thin drops, from a grower that is a list of single-line definitions, a random subset of
+// the lines whose name no later kept line mentions: a statement that always fails under a
+// small maximum otherwise hides every statement after it.
+func c06Thin(r *plan.Rng, g []string) []string {
+	for _, l := range g {
+		if strings.HasPrefix(l, "for ") || strings.HasPrefix(l, "}") || strings.HasPrefix(l, "\t") || !strings.Contains(l, " := ") {
+			return g
+		}
+	}
+	if !r.Chance(2, 3) {
+		return g
+	}
+	keep := make([]bool, len(g))
+	kept := 0
+	for i := len(g) - 1; i >= 0; i-- {
+		name := g[i][:strings.Index(g[i], " := ")]
+		needed := false
+		for j := i + 1; j < len(g); j++ {
+			if keep[j] && strings.Contains(g[j][strings.Index(g[j], " := "):], name) {
+				needed = true
+			}
+		}
+		if needed || r.Chance(1, 2) || (i == 0 && kept == 0) {
+			keep[i] = true
+			kept++
+		}
+	}
+	var out []string
+	for i, l := range g {
+		if keep[i] {
+			out = append(out, l)
+		}
+	}
+	return out
 }
 
 func genC06Recursion(r *plan.Rng) *plan.Plan {
